@@ -73,6 +73,20 @@ def rule_own(ctx, rule_id="C06.OWN", prop="C06") -> RuleResult:
         if not ok:
             res.find("Workspace", "register", f"registry written by {unparse(c)[:60]}", f"{reg.module.relpath}:{c.lineno}",
                      "an entity is registered without the live-duplicate check, or under a key that is not its own uid")
+    for br in [x for x in ast.walk(reg.node) if isinstance(x, ast.If) and isinstance(x.test, ast.Call) and unparse(x.test.func) == "isinstance"]:
+        first_ins = None
+        order_ok = True
+        for st_ in br.body:
+            has_ins = any(isinstance(c, ast.Call) and unparse(c.func).endswith("insert_once") for c in ast.walk(st_))
+            other = [c for c in ast.walk(st_) if isinstance(c, ast.Call) and not unparse(c.func).endswith("insert_once") and unparse(c.func) not in ("isinstance",)]
+            if has_ins and first_ins is None:
+                first_ins = st_
+            elif other and first_ins is None:
+                order_ok = False
+        res.inst(f"register[{unparse(br.test.args[1])}]: insert_once is the first effect of the branch", nontrivial=True, ok=order_ok)
+        if not order_ok:
+            res.find("Workspace", "register", f"an effect precedes insert_once in the {unparse(br.test.args[1])} branch", f"{reg.module.relpath}:{br.lineno}",
+                     "a registration that insert_once refuses (uid in use) has already written to the file / changed other state")
     regs_used = {c.args[0].attr for c in calls}
     ok = regs_used == set(REGISTRIES)
     res.inst(f"register covers registries {sorted(regs_used)}", ok=ok)
@@ -118,6 +132,22 @@ def rule_own(ctx, rule_id="C06.OWN", prop="C06") -> RuleResult:
             if not ok:
                 res.find(fn.cls.name, "add_children", f"children list stores {unparse(c.args[0])[:40]}", f"{fn.module.relpath}:{c.lineno}",
                          "children are not kept alive by their parent: they die at the next GC and their nodes are swept from the file")
+    ob = p.cls("ObjectBase").methods["add_children"]
+    apps = [c for c in ast.walk(ob.node) if isinstance(c, ast.Call) and isinstance(c.func, ast.Attribute) and c.func.attr == "append" and unparse(c.func.value) == "self._children"]
+    for c in apps:
+        guard = None
+        for i in ast.walk(ob.node):
+            if isinstance(i, ast.If) and any(x is c for s_ in i.body for x in ast.walk(s_)):
+                guard = i if guard is None else guard
+        child = unparse(c.args[0])
+        by_uid = guard is not None and any(isinstance(x, ast.Compare) and isinstance(x.ops[0], ast.NotIn) and unparse(x.left) == f"{child}.uid" for x in ast.walk(guard.test))
+        uids_of_children = any(isinstance(a, ast.Assign) and ".uid" in unparse(a.value) and "self._children" in unparse(a.value) for a in ast.walk(ob.node))
+        ok = by_uid and uids_of_children
+        res.inst("ObjectBase.add_children refuses a child whose uid is already among the children's uids", nontrivial=True, ok=ok)
+        if not ok:
+            res.find("ObjectBase", "add_children", "duplicate guard compares objects, not identifiers", f"{ob.module.relpath}:{c.lineno}",
+                     "a new child that re-uses a sibling's uid is attached before registration refuses it: the object ends up with two children "
+                     "sharing one identifier")
     return res
 
 
@@ -252,7 +282,12 @@ def rule_guard(ctx) -> RuleResult:
         for n in ast.walk(et.node):
             if isinstance(n, ast.If) and d in n.body and "_types" in unparse(n.test) and "workspace" in unparse(n.test):
                 ok = True
-    res.inst("EntityType.copy drops the uid when it is taken in the target workspace's types", nontrivial=True, ok=ok)
+    # the target workspace arrives through kwargs: they must be merged into `attributes` before the test reads attributes.get("workspace")
+    body = et.node.body
+    upd = [i for i, st_ in enumerate(body) if isinstance(st_, ast.Expr) and unparse(st_.value).startswith("attributes.update(")]
+    tst = [i for i, st_ in enumerate(body) if isinstance(st_, ast.If) and "_types" in unparse(st_.test)]
+    ok = ok and bool(upd) and bool(tst) and upd[0] < tst[0] and "attributes.get('workspace'" in unparse(body[tst[0]].test)
+    res.inst("EntityType.copy drops the uid when it is taken in the target workspace's types (kwargs merged first)", nontrivial=True, ok=ok)
     if not ok:
         res.find("EntityType", "copy", "uid kept although the target workspace may hold that type uid", et.where,
                  "copying a type into the same workspace collides with the original")
